@@ -74,6 +74,11 @@ ToStr(T, o, u) ==
       T2 == ConvertM(T1, T1.objs[o].m, T1.objs[o].b, nb)
   IN [T2 EXCEPT !.objs[o] = [m |-> Len(T2.mags), b |-> nb]]
 
+\* the repaired operations convert a COPY: _convert(o.magnitude, o.baseunits, target) / o.value('text') return a new
+\* Magnitude and leave o's references alone (only the Decimal promotion still writes into o's cells)
+ConvCopyBU(T, o, b2) == ConvertM(T, T.objs[o].m, T.objs[o].b, b2)
+ConvCopyStr(T, o, u) == LET T1 == FreshBU(T, u) IN ConvertM(T1, T1.objs[o].m, T1.objs[o].b, Len(T1.bus))
+
 \* Quantity(Magnitude m, BaseUnits b): both stored by reference; a dimensionless total gets new BaseUnits (and the
 \* factors of the dropped units are multiplied in: a new Magnitude)
 QInit(T, m, b) ==
@@ -106,30 +111,33 @@ MStep(A, T, RO, refused, tok) ==
          ELSE IF IsLog(OUnit(T, x)) THEN
             \* LogarithmicUnitType.add/sub: mag1 = unit1.magnitude ; mag2 = unit2.to(..).magnitude ; both .value overwritten
             LET m1 == T.objs[x].m
-                T1 == IF Fx("log_operands_to_linear") THEN T ELSE ToBU(T, y, T.objs[x].b)
+                T1 == IF Fx("log_operands_to_linear") THEN ConvCopyBU(T, y, T.objs[x].b) ELSE ToBU(T, y, T.objs[x].b)
                 m2 == T1.objs[y].m
                 T2 == IF Fx("log_operands_to_linear") THEN T1 ELSE [T1 EXCEPT !.mags[m1].lin = @ + 1]
                 T3 == IF Fx("log_operands_to_linear") THEN T2 ELSE [T2 EXCEPT !.mags[m2].lin = @ + 1]
             IN ResShareBU(T3, RO, T3.objs[x].b)
          ELSE
             \* UnitType.add/sub: unit2.to(unit1.baseunits) converts the right operand IN PLACE
-            LET T1 == IF Fx("rhs_converted_in_place") THEN T ELSE ToBU(T, y, T.objs[x].b)
+            LET T1 == IF Fx("rhs_converted_in_place") THEN ConvCopyBU(T, y, T.objs[x].b) ELSE ToBU(T, y, T.objs[x].b)
             IN ResShareBU(T1, RO, T1.objs[x].b)
     [] op \in {"mul", "div"} ->
          IF refused THEN T ELSE ResFresh(T, RO, ExMerge(OUnit(T, x), OUnit(T, y), IF op = "mul" THEN 1 ELSE -1))
     [] op = "eq" ->
          \* other.to(self.units()) unless other is zero - before the comparison itself may fail on a Decimal
-         IF ~Convertible(OUnit(T, y), OUnit(T, x)) \/ OMag(T, y).z \/ Fx("rhs_converted_in_place") THEN T ELSE ToStr(T, y, OUnit(T, x))
+         IF ~Convertible(OUnit(T, y), OUnit(T, x)) \/ OMag(T, y).z THEN T
+         ELSE IF Fx("rhs_converted_in_place") THEN ConvCopyStr(T, y, OUnit(T, x)) ELSE ToStr(T, y, OUnit(T, x))
     [] op \in {"np.linspace", "np.logspace"} ->
          \* b = b.to(a.baseunits) - before numpy itself may fail on a Decimal
          IF ~Convertible(OUnit(T, y), OUnit(T, x)) THEN T
-         ELSE LET T1 == IF Fx("arg_converted_in_place") THEN T ELSE ToBU(T, y, T.objs[x].b)
+         ELSE LET T1 == IF Fx("arg_converted_in_place")
+                        THEN (IF OUnit(T, x) = UNone THEN T ELSE ConvCopyStr(T, y, OUnit(T, x)))   \* b.value(a.units())
+                        ELSE ToBU(T, y, T.objs[x].b)
               IN IF refused THEN T1 ELSE ResShareBU(T1, RO, T1.objs[x].b)
     [] op \in {"radd", "rsub"} ->
          \* left = Quantity(number) ; self.to(left.baseunits)
          IF refused THEN T
          ELSE LET T0 == FreshBU(T, UNone)
-                  T1 == IF Fx("rhs_converted_in_place") THEN T0 ELSE ToBU(T0, x, Len(T0.bus))
+                  T1 == IF Fx("rhs_converted_in_place") THEN ConvCopyBU(T0, x, Len(T0.bus)) ELSE ToBU(T0, x, Len(T0.bus))
               IN ResFresh(T1, RO, UNone)
     [] op \in {"addn", "subn", "addn0", "subn0", "np.linspace_nq", "np.logspace_nq", "np.linspace_qn", "np.logspace_qn"} \cup KeepOps ->
          IF refused THEN T ELSE ResShareBU(T, RO, T.objs[x].b)
@@ -139,10 +147,10 @@ MStep(A, T, RO, refused, tok) ==
     [] op \in SinOps ->
          \* inputs[0].to('rad') - before the function itself may fail on a Decimal
          IF ~Convertible(OUnit(T, x), URad) THEN T
-         ELSE LET T1 == IF Fx("operand_to_rad") THEN T ELSE ToStr(T, x, URad) IN IF refused THEN T1 ELSE ResFresh(T1, RO, UNone)
+         ELSE LET T1 == IF Fx("operand_to_rad") THEN ConvCopyStr(T, x, URad) ELSE ToStr(T, x, URad) IN IF refused THEN T1 ELSE ResFresh(T1, RO, UNone)
     [] op \in ArcOps ->
          IF ~Convertible(OUnit(T, x), UNone) THEN T
-         ELSE LET T1 == IF Fx("operand_to_none") THEN T ELSE ToStr(T, x, UNone) IN IF refused THEN T1 ELSE ResFresh(T1, RO, URad)
+         ELSE LET T1 == IF Fx("operand_to_none") THEN ConvCopyStr(T, x, UNone) ELSE ToStr(T, x, UNone) IN IF refused THEN T1 ELSE ResFresh(T1, RO, URad)
     [] op = "value" ->
          \* _convert(self.magnitude, self.baseunits, BaseUnits(expression)): only the Decimal promotion touches self
          IF refused THEN T
